@@ -33,6 +33,7 @@ type c19Plan struct {
 	LogReq  []string `json:"log_req"`
 	LogResp []string `json:"log_resp"`
 	Reqs    []c19Req `json:"reqs"`
+	Restart bool     `json:"restart,omitempty"` // the proxy is restarted from its state file before the requests
 	Mount   bool     `json:"mount,omitempty"` // every service sits below /app (prefix stripped before forwarding, the CLI default)
 }
 
@@ -44,6 +45,7 @@ func c19Gen(t *rapid.T) c19Plan {
 	p.LogReq = rapid.SampledFrom([][]string{nil, {"X-Custom_Header"}, {"accept", "x-absent"}, {"Cookie", "X-UTF8", "User-Agent"}}).Draw(t, "log-req")
 	p.LogResp = rapid.SampledFrom([][]string{nil, {"x-vf-target"}, {"Set-Cookie", "X-Absent"}, {"content-type", "cache-control"}}).Draw(t, "log-resp")
 	p.Mount = rapid.IntRange(0, 2).Draw(t, "mount") == 0
+	p.Restart = rapid.IntRange(0, 3).Draw(t, "restart") == 0
 	n := rapid.IntRange(1, 5).Draw(t, "nreqs")
 	for i := 0; i < n; i++ {
 		rq := c19Req{Ending: rapid.SampledFrom(c19Endings).Draw(t, "ending")}
@@ -118,6 +120,20 @@ func c19Run(t *testing.T, p c19Plan) (res vfResult) {
 		vfPause(r, "paused", time.Second, 300*time.Millisecond)
 		vfStop(r, "stopped", time.Second, "closed")
 		synctest.Wait()
+		if p.Restart {
+			nr := vfNewRouter(vfPathOf(r))
+			if err := nr.RestoreLastSavedState(); err != nil {
+				res.failf("restore-failed", "%v", err)
+				return
+			}
+			for _, n := range []string{"main", "buf", "paused", "stopped", "hand", "secure"} {
+				vfRemove(r, n)
+			}
+			w.adopt(nr)
+			r = nr
+			synctest.Wait()
+			res.label("restored-from-state-file")
+		}
 		f := w.front(r, "front:80")
 
 		records := func(from int) []vfLogRec {
